@@ -820,7 +820,12 @@ def gen_c16(rng, sid):
                 # cancel: alone, or coinciding with the reply
                 c = {"k": "cancel", "o": o}
                 how = rng.random()
-                if how < 0.4:
+                if how < 0.15 and info["label"].get("prog"):
+                    # a progressive result, the cancellation and the ERROR in one burst
+                    b.burst([b.msg("result", req={"op": o}, tag=b.tag(), details={"progress": V("bool", b=True)}),
+                             c, b.reply_err(o)])
+                    b.done(o, False)
+                elif how < 0.4:
                     b.burst([c])
                     info["cancelled"] = True
                     info["deadline"] = b.now + b.rt
